@@ -191,6 +191,16 @@ def check_restore(case, ctx):
         for op in base:
             if got[op] != base[op]:
                 raise Violation(f"restore:{method}:{op}", f"{kind} {op}: originals give {base[op]!r}, players rebuilt via {method} give {got[op]!r}"[:900])
+    # a roster next to snapshots of it: every team carries the id tuple of the first team (deepcopy keeps ids), values differ
+    clones = [[model.rating(p[0], p[1]) for p in t] for t in teams]
+    for t in clones[1:]:
+        for j, pl in enumerate(t):
+            pl.id = clones[0][j % len(clones[0])].id
+    got = results(model, clones, call)
+    ctx.called(4)
+    for op in base:
+        if got[op] != base[op]:
+            raise Violation(f"restore:cloned-ids:{op}", f"{kind} {op}: players with their own ids give {base[op]!r}, the same values under ids cloned from the first team {got[op]!r}"[:900])
     for lab in gen.game_labels(case):
         ctx.label(lab)
     ctx.nontrivial_if(len(teams) >= 3 or len(set(case["classes"])) < len(teams))
